@@ -75,6 +75,17 @@ Proof.
   vm_compute. repeat (apply Forall_cons; [split; [reflexivity | discriminate] |]). apply Forall_nil.
 Qed.
 
+(** compaction concurrent with apply: the Config register takes its record one entry after
+    the header's last_index; the restart replays that entry again (for a sequence: an id is
+    skipped; for a config history: a duplicated history item) *)
+Definition racy_hist : list (entry N) := [Some (KConfig, 5%N); Some (KConfig, 2%N)].
+
+Lemma concurrent_compaction_double_applies :
+  run N N rapply racy_hist (init_node N rinit) KConfig = 7%N /\
+  restart_racy N N rapply rsnap rload rinit racy_hist 1 (fun _ => 0%nat) KConfig = 7%N /\
+  restart_racy N N rapply rsnap rload rinit racy_hist 1 (fun c => match c with KConfig => 1%nat | _ => 0%nat end) KConfig = 9%N.
+Proof. repeat split. Qed.
+
 (** ** (2) key-value component *)
 Inductive kvmsg := KSet (k : string) (v : list N) | KDel (k : string).
 Definition kvstate := list (string * list N).
